@@ -6,6 +6,7 @@ import sys
 HERE = os.path.dirname(os.path.abspath(__file__))
 sys.path.insert(0, HERE)
 REPO = os.environ.get("XSDATA_REPO", "/repo")
+sys.path.insert(0, os.path.join(HERE, "shims"))
 sys.path.insert(0, REPO)
 sys.dont_write_bytecode = True
 
